@@ -75,6 +75,9 @@ func ZZ_C10_Builtins(sv *zzsv.T) {
 	f, isFn := fn.(func(args []object.Object) object.Object)
 	sv.Assume(isFn)
 	sv.Setenv("TZ", "UTC")
+	// the rest of the process environment is adversarial: any variable a
+	// built-in asks for may be unset or may name a file
+	sv.EnvOther("/etc/hostname")
 	if name == "getenv" && n == 1 {
 		// reading environment variables is allowed. The variable's name is
 		// symbolic (2..5 upper-case letters) and that variable is unset, so
